@@ -129,6 +129,10 @@ func (fv *FuncVC) loopModSet(body []*ssa.BasicBlock) *modSet {
 				addRoot(staticRoot(in.Addr))
 			case *ssa.Alloc:
 				ms.cells[in] = true
+			case *ssa.Next:
+				if rg, ok := in.Iter.(*ssa.Range); ok && in.IsString {
+					ms.ghosts["iter."+rg.Name()] = true
+				}
 			case ssa.CallInstruction:
 				ms.anyCall = true
 				eff := fv.P.callEffect(in.Common())
@@ -286,6 +290,14 @@ func (fv *FuncVC) bindRangeLen(env *Env, h *ssa.BasicBlock) {
 	if v, ok := fv.rangeLen(h); ok {
 		if val, ok := fv.vals[v]; ok {
 			env.names["rangelen"] = val
+		}
+	}
+	// rangepos: the hidden position of a range-over-string loop whose Next is in the header
+	for _, in := range h.Instrs {
+		if nx, ok := in.(*ssa.Next); ok && nx.IsString {
+			if rg, ok := nx.Iter.(*ssa.Range); ok {
+				env.names["rangepos"] = Val{T: fv.ghostTerm(env.st, "iter."+rg.Name(), SMath)}
+			}
 		}
 	}
 	// loopbound: the right operand of the header test `x < bound`
